@@ -520,6 +520,7 @@ def common_cases(spec, tp, d, cell, stated, info_expected):
                (type(m.domain_geometry).__name__.startswith("_Default") and P.geometry.par_dim == m.domain_dim)),
               ("prior.dim == model.domain_dim", tp.prior.dim == m.domain_dim), ("data dim == model.range_dim", np.size(dd) == m.range_dim),
               ("likelihood distribution dim == model.range_dim", L.distribution.dim == m.range_dim),
+              ("info.Miscellaneous is problem.Miscellaneous", info.Miscellaneous is getattr(tp, "Miscellaneous", None)),
               ("infoString", getattr(tp, "infoString", None) == info_expected and info.infoString == info_expected)]
     if tp.exactSolution is not None:
         checks += [("exactSolution.geometry is model.domain_geometry", tp.exactSolution.geometry is m.domain_geometry),
@@ -750,7 +751,24 @@ def deconv1d_cases(spec, cell):
     if spec.get("x") is not None:
         spec = dict(spec, _mx_ref=[float(v) for v in ref_conv1([float(v) for v in spec["x"]], docP, mode)])   # documented operator, not model.forward
     cases += common_cases(spec, tp, d, cell, stated, info_deconv(kw))
+    cases += reassign_cases(spec, tp, d, cell, stated, info_deconv(kw))
     return cases
+
+
+def reassign_cases(spec, tp, d, cell, stated, info):
+    """object reuse after attribute re-assignment: problem.prior = <new prior>; everything handed out afterwards refers to the new prior
+    and to the unchanged model / data"""
+    ra = spec.get("reassign")
+    if not ra:
+        return []
+    import cuqi
+    m0, d0 = tp.model, tp.data
+    tp.prior = mk_prior(cuqi, ra, len(ra["mean"]))
+    spec2 = dict(spec, kw=dict(spec["kw"], prior=ra))
+    cs = common_cases(spec2, tp, d, cell + "/prior-reassigned", stated, info)
+    if tp.model is not m0 or tp.data is not d0:
+        cs.append(verdict_case(spec_clean(dict(spec2, obs="reassign")), cell + "/prior-reassigned", "re-assigning the prior changed the model/data objects handed out", "%s|prior-reassign" % spec["tp"]))
+    return cs
 
 
 def zero_noise_case(spec, cell):
@@ -1277,6 +1295,8 @@ def cubic_cases(spec, cell):
     spec = dict(spec, _mx_ref=[float(wf)])
     cases += common_cases(spec, tp, d, cell, ("given", float(kw.get("noise_std", 1)), float(data)),
                           "Noise type: Additive Gaussian with std: {}".format(kw.get("noise_std", 1)))
+    cases += reassign_cases(spec, tp, d, cell, ("given", float(kw.get("noise_std", 1)), float(data)),
+                            "Noise type: Additive Gaussian with std: {}".format(kw.get("noise_std", 1)))
     return cases
 
 
@@ -1530,6 +1550,10 @@ def specs(ctx):
         k += 1
         kw = dict({"dim": 6, "phantom": [rng.randint(1, 5) for _ in range(6)], "noise_std": STD[k % 4]}, **kwf)
         out.append(({"tp": "deconv1d", "kw": kw, "z": zvec(rng, 6, k), "x": dyvec(rng, 6)}, "Deconvolution1D/dispatch/" + nm, h))
+    for bc in ["zero", "mirror"]:
+        k += 1
+        out.append(({"tp": "deconv1d", "kw": {"dim": 5, "BC": bc, "PSF": [1, 2, 3], "phantom": [rng.randint(1, 5) for _ in range(5)], "noise_std": 0.5},
+                     "reassign": {"mean": dyvec(rng, 5), "cov": rng.choice([0.25, 4.0])}, "z": zvec(rng, 5, k), "x": dyvec(rng, 5)}, "Deconvolution1D/reassign-prior", "deconv1d"))
     out.append(({"tp": "deconv1d", "kw": {"dim": 6}, "z": zvec(rng, 6, 2), "x": dyvec(rng, 6)}, "Deconvolution1D/all-defaults", "deconv1d"))
     out.append(({"tp": "deconv1d", "kw": {"dim": 6, "use_legacy": True}, "z": zvec(rng, 6, 2), "x": dyvec(rng, 6)}, "Deconvolution1D/legacy/all-defaults", "legacy"))
     for kind in ["gauss", "sinc", "vonMises"]:
@@ -1787,6 +1811,7 @@ def specs(ctx):
             out.append(({"tp": "cubic", "kw": kw, "data_kind": dk, "noise_kind": "np" if dk == "np" else None, "x": dyvec(rng, 2, -12, 12, 8)}, "WangCubic/falsy/data-0-%s" % dk, "cubic"))
     out.append(({"tp": "cubic", "kw": {"data": 1}, "data_kind": "bool", "x": dyvec(rng, 2, -12, 12, 8)}, "WangCubic/falsy/data-True", "cubic"))
     out.append(({"tp": "cubic", "kw": {"data": 2.5}, "data_kind": "array", "x": dyvec(rng, 2, -12, 12, 8)}, "WangCubic/data-array", "cubic"))
+    out.append(({"tp": "cubic", "kw": {"data": 0.75, "noise_std": 0.5}, "reassign": {"mean": dyvec(rng, 2), "cov": 0.25}, "x": dyvec(rng, 2, -12, 12, 8)}, "WangCubic/reassign-prior", "cubic"))
     for var in ["default", "std", "data", "prior", "all"]:
         for _ in range(ctx.n(2, 8)):
             kw = {}
@@ -1835,6 +1860,53 @@ def handle(spec, cell, h):
     raise ValueError(h)
 
 
+def history_cases(ctx):
+    """histories that revisit earlier objects: problem A is built and evaluated, then other problems of the same class are built
+    (other options, other sizes), then A is evaluated again -- bit for bit the same"""
+    rng = ctx.rng
+    seqs = {
+        "Deconvolution1D": [{"tp": "deconv1d", "kw": {"dim": 5, "PSF": [1, 2, 3], "BC": "zero", "phantom": [1, 2, 3, 4, 5], "noise_std": 0.5}, "z": [0.5] * 5},
+                            {"tp": "deconv1d", "kw": {"dim": 5, "PSF": [3, 1], "BC": "mirror", "phantom": [5, 4, 3, 2, 1], "noise_std": 0.25}, "z": [1.0] * 5},
+                            {"tp": "deconv1d", "kw": {"dim": 6, "PSF": "gauss", "use_legacy": True, "phantom": [1, 0, 2, 0, 1, 1], "noise_std": 2.0}, "z": [0.0] * 6}],
+        "Deconvolution2D": [{"tp": "deconv2d", "kw": {"dim": 3, "PSF": [[1, 2, 0], [0, 3, 1], [2, 1, 1]], "BC": "neumann", "phantom": [[1, 2, 3], [4, 5, 6], [7, 8, 9]], "noise_std": 0.5}, "z": [0.5] * 9},
+                            {"tp": "deconv2d", "kw": {"dim": 3, "PSF": [[1, 2], [3, 4]], "BC": "zero", "phantom": [[1, 0, 1], [0, 1, 0], [1, 0, 1]], "noise_std": 0.25}, "z": [1.0] * 9},
+                            {"tp": "deconv2d", "kw": {"dim": 4, "PSF": "moffat", "PSF_size": 3, "PSF_param": 1.0, "BC": "periodic", "phantom": [[1] * 4] * 4, "noise_std": 0.5}, "z": [0.0] * 16}],
+        "Heat1D": [{"tp": "heat", "kw": {"dim": 4, "SNR": 50}, "z": [0.5] * 4}, {"tp": "heat", "kw": {"dim": 5, "endpoint": 2, "max_time": 0.1, "SNR": 200}, "z": [1.0] * 5},
+                   {"tp": "heat", "kw": {"dim": 4, "exactSolution": [1.0, 2.0, 0.0, 1.0]}, "z": [0.0] * 4}],
+        "Poisson1D": [{"tp": "poisson", "kw": {"dim": 5, "source": "lin", "SNR": 50}, "z": [0.5] * 4}, {"tp": "poisson", "kw": {"dim": 6, "endpoint": 2, "source": "quad"}, "z": [1.0] * 5},
+                      {"tp": "poisson", "kw": {"dim": 5, "source": "one", "exactSolution": [1.0, 2.0, 1.5, 1.0, 2.5]}, "z": [0.0] * 4}],
+        "Abel1D": [{"tp": "abel", "kw": {"dim": 4, "SNR": 50}, "z": [0.5] * 4}, {"tp": "abel", "kw": {"dim": 5, "endpoint": 2}, "z": [1.0] * 5}, {"tp": "abel", "kw": {"dim": 4, "endpoint": 0.5}, "z": [0.0] * 4}],
+        "WangCubic": [{"tp": "cubic", "kw": {"data": 0.5}}, {"tp": "cubic", "kw": {"data": -2, "noise_std": 0.5}}, {"tp": "cubic", "kw": {}}],
+    }
+    cases = []
+    for name, seq in seqs.items():
+        tps = []
+        for sp in seq:
+            tp, d, err = construct(sp)
+            if tp is None:
+                raise RuntimeError("history: %s refused %s" % (name, err))
+            x = np.array([rng.randint(2, 8) / 4 for _ in range(tp.model.domain_dim)])
+            with warnings.catch_warnings():
+                warnings.simplefilter("ignore")
+                snap = (np.array(tp.model.forward(x), dtype=float), np.array(tp.data, dtype=float), float(np.ravel(tp.posterior.logd(x))[0]),
+                        None if tp.exactData is None else np.array(tp.exactData, dtype=float))
+            tps.append((tp, x, snap))
+        bad = []
+        for i, (tp, x, snap) in enumerate(tps):
+            with warnings.catch_warnings():
+                warnings.simplefilter("ignore")
+                now = (np.array(tp.model.forward(x), dtype=float), np.array(tp.data, dtype=float), float(np.ravel(tp.posterior.logd(x))[0]),
+                       None if tp.exactData is None else np.array(tp.exactData, dtype=float))
+            same = all((a is None and b is None) or (np.array_equal(a, b, equal_nan=True) if isinstance(a, np.ndarray) else (a == b or (a != a and b != b))) for a, b in zip(snap, now))
+            if not same:
+                bad.append(i)
+        meta = {"tp": "history", "name": name, "handler": "history"}
+        cases.append(Case(expr=cbool(not bad), meta=meta, cell="history/" + name, kind="DECISION"))
+        if bad:
+            cases.append(verdict_case(meta, "history/" + name, "%s: problems %s give other forward/data/logd values after later problems of the class were built" % (name, bad), "%s|history" % name))
+    return cases
+
+
 def run(ctx):
     probe_state(force=True)
     ctx.note("tree state: %s" % _STATE)
@@ -1846,6 +1918,7 @@ def run(ctx):
                 c.meta = dict(spec_clean(c.meta), handler=h, cell=cell)
                 c.key = ""; c.__post_init__()
             cases += cs
+    cases += history_cases(ctx)
     # shipped PSF generators
     for kind in ["gauss", "moffat", "defocus"]:
         for n in range(1, 8):
@@ -1886,6 +1959,8 @@ def _rerun(meta):
     cell = m.pop("cell", "replay")
     for kk in ("obs", "verdict", "observed", "entry"):
         m.pop(kk, None)
+    if h == "history" or m.get("tp") == "history":
+        return [c for c in history_cases(Ctx("C17", "quick", 0, "/repo")) if c.meta.get("name") == m.get("name")]
     if h == "phantom" or m.get("tp") == "phantom":
         return phantom_cases(m["kind"], m["dim"], m["param"])
     if h == "psf" or m.get("tp") in ("psf1d", "psf2d"):
